@@ -65,8 +65,8 @@ add("C16", "TestC16", level="fault_enumeration",
     thorough={"checks": 6000, "shards": 16, "timeout": 3000},
     floors={"transient": 0.3, "format=csv": 0.05, "format=edi": 0.05, "format=xml": 0.05, "format=json": 0.05,
             "format=fixed-length": 0.05, "format=fixedlength2": 0.05, "format=csv2": 0.05},
-    assumptions=["io.EOF after a fault counts as a terminal result (the old fixed-length header/footer reader ends the input at a line "
-                 "matching no header); such cases are counted in counters.fault_masked_as_eof, not raised"],
+    assumptions=["a run in which the transform never reads as far as the fault must equal the fault-free run; once the fault was reached, a clean "
+                 "io.EOF is NOT accepted as terminal result (the failure would be swallowed and the rest of the input silently missing)"],
     coverage_extra={"exhaustive_per_input": True})
 
 META["C09"] = {
@@ -83,7 +83,7 @@ META["C16"] = {
     "level_text": ("For each generated input every byte offset is tried as the position of a persistent or transient-then-persistent read "
                    "error; the transform must reach a sticky terminal result within N+3 Reads and must not corrupt earlier results. "
                    "Exhaustive per input over fault positions, sampled over inputs/schemas."),
-    "level_note": "Trusted: the fault-injecting reader of the harness. io.EOF after a fault is accepted as terminal (counted, see evidence counters).",
+    "level_note": "Trusted: the fault-injecting reader of the harness.",
 }
 
 add("C10", "TestC10",
@@ -176,7 +176,7 @@ add("C01", "TestC01",
           "pass-through schemas and the scripted handler). Non-trivial: the history has a Read after the terminal result or a RawRecord "
           "directly after a failed Read; distinct by SHA-256 of the case."),
     quick={"checks": 3000, "shards": 4, "timeout": 600},
-    thorough={"checks": 30000, "shards": 16, "timeout": 3000},
+    thorough={"checks": 30000, "shards": 16, "timeout": 3000, "fuzz": [{"target": "FuzzC01", "time": 120}]},
     floors={"terminal-non-eof": 0.15, "read-after-terminal": 0.5, "raw-after-fail": 0.05, "mode=scripted": 0.15, "mode=jsonlog": 0.04,
             "format=csv": 0.05, "format=csv2": 0.05, "format=edi": 0.04, "format=fixed-length": 0.05, "format=fixedlength2": 0.05,
             "format=json": 0.04, "format=xml": 0.05},
@@ -384,7 +384,7 @@ add("C06", "TestC06",
           "Non-trivial: a field contains delimiter, quote, LF or a multi-byte rune, or a physical line exceeds 4096 bytes, or a record "
           "spans >= 2 lines; distinct by SHA-256 of the case."),
     quick={"checks": 1500, "shards": 4, "timeout": 900},
-    thorough={"checks": 40000, "shards": 16, "timeout": 3300},
+    thorough={"checks": 40000, "shards": 16, "timeout": 3300, "fuzz": [{"target": "FuzzC06", "time": 120}]},
     floors={"line>4096": 0.20, "multi-line": 0.25, "multi-byte": 0.30},
     assumptions=["CR inside quoted csv fields is excluded (Go's decoder normalises CRLF inside quotes)",
                  "csv delimiters quote, CR, LF, NUL, U+FFFD are C03's domain; with replace_double_quotes the delimiter ' is excluded",
